@@ -4,7 +4,9 @@ C19 — what the property is stated against.
 * `specLine`, `specStep`, `specRun`: the *heap-free* reference semantics of a derivation tree:
   a node's attributes are the concatenation of the `WithAttrs` arguments along its path from
   the root; `Handle` on node `n` prints `encode (severity level) (text(record attrs ++ kept
-  path attrs) without its last byte)`; `Enabled l` is `l ≥ root level`.
+  path attrs) without its last byte)`; `Enabled l` is `l ≥` what the `slog.Leveler` stored in
+  the root answers *now* (the root the code makes stores the constant read at construction;
+  `newHandlerDyn` stores the leveler itself, so that a `*slog.LevelVar` is followed).
 * `TextContract` (TEXT-1): what is assumed of `slog.TextHandler`.
 * A byte-level reader of the emitted line: `parseLine` accepts exactly
   `{"severity":<string>,"message":<string>}\n` with RFC 8259 string literals and returns
@@ -40,27 +42,43 @@ def toOut : GoM Bytes → Out
   | .ok b => .line b
   | .error p => .panic p
 
-/-- One operation on the abstract tree: `paths[i]` is the attribute list of node `i`. -/
+/-- The abstract tree: `paths[i]` is the attribute list of node `i`; `lvar` is the current
+value of the `*slog.LevelVar` (the last `setLevel`, or its initial value). -/
+structure SpecWorld where
+  paths : List (List Attr)
+  lvar : Int
+  deriving Repr, DecidableEq
+
+/-- One operation on the abstract tree.  `lvl0` is the `slog.Leveler` the root stores: every
+node answers `Enabled` for what it reports at the time of the call. -/
 def specStep (text : Int → Nat → List Attr → Bytes) (encode : Bytes → Bytes → Bytes)
-    (lvl0 : Int) (recs : List RecInfo) (paths : List (List Attr)) : Op → Option (List (List Attr) × Out)
+    (lvl0 : Leveler) (recs : List RecInfo) (s : SpecWorld) : Op → Option (SpecWorld × Out)
   | .withAttrs p as => do
-    let pa ← paths[p]?
-    pure (paths ++ [pa ++ as], .derived)
+    let pa ← s.paths[p]?
+    pure ({ s with paths := s.paths ++ [pa ++ as] }, .derived)
   | .handle n ri => do
-    let pa ← paths[n]?
+    let pa ← s.paths[n]?
     let r ← recs[ri]?
-    pure (paths, toOut (specLine text encode r.level r.rid (r.attrs ++ keep pa)))
+    pure (s, toOut (specLine text encode r.level r.rid (r.attrs ++ keep pa)))
   | .enabled n l => do
-    let _ ← paths[n]?
-    pure (paths, .en (decide (l ≥ lvl0)))
+    let _ ← s.paths[n]?
+    pure (s, .en (decide (l ≥ lvl0.get s.lvar)))
+  | .setLevel l => pure ({ s with lvar := l }, .set)
 
 def specRun (text : Int → Nat → List Attr → Bytes) (encode : Bytes → Bytes → Bytes)
-    (lvl0 : Int) (recs : List RecInfo) : List (List Attr) → List Op → Option (List (List Attr) × List Out)
-  | paths, [] => some (paths, [])
-  | paths, op :: ops => do
-    let (p1, o) ← specStep text encode lvl0 recs paths op
-    let (p2, os) ← specRun text encode lvl0 recs p1 ops
-    pure (p2, o :: os)
+    (lvl0 : Leveler) (recs : List RecInfo) : SpecWorld → List Op → Option (SpecWorld × List Out)
+  | s, [] => some (s, [])
+  | s, op :: ops => do
+    let (s1, o) ← specStep text encode lvl0 recs s op
+    let (s2, os) ← specRun text encode lvl0 recs s1 ops
+    pure (s2, o :: os)
+
+/-- the value of the `*slog.LevelVar` after a script: the argument of the last `Set`, the
+initial value when there was none -/
+def lastLevel : Int → List Op → Int
+  | lv, [] => lv
+  | _, .setLevel l :: ops => lastLevel l ops
+  | lv, _ :: ops => lastLevel lv ops
 
 /-- A record value is meaningful in a heap: its `back` slice is, and — the invariant of
 `slog.Record` — `back` is used only once the inline array is full. -/
